@@ -54,6 +54,48 @@ theorem run_loop_agrees :
     Gen.C16.runDoneDrains = Variant.fixed.drainOnStop ∧ Gen.C16.runDoneFlushes = true ∧
     Gen.C16.runIdleFlushes = true := by decide
 
+/-! ### the condition expressions, interpreted: the model's decisions are the *source's* expressions
+    evaluated in the state (`Cnd.eval` of Golib.ZipSender.Facts), for every state and record -/
+
+section
+variable {ρ : Type}
+
+/-- `ApplyConfig` as transcribed (setting ← GetInt(key, fall-back), in source order) computes, for every
+    configuration, exactly the settings the model's `applyConfig` installs -/
+theorem applyConfig_in_source (c : Conf) (s : Settings) :
+    applyKeys Gen.C16.applyConfigKeys c.lookup s = c.resolve := by
+  rw [applyConfig_keys_agree]; exact applyKeys_ref_is_resolve c s
+
+/-- `Append` flushes exactly when the source's condition — the `firstTime == 0` split, then the size
+    test or the size-or-age test — evaluates to true after the write -/
+theorem append_decision_in_source (C : Codec ρ) (s : State ρ) (r : ρ) :
+    mustFlush C s r ↔
+      (if Gen.C16.appendShape.split.eval (appendEnv C s r) then Gen.C16.appendShape.first.eval (appendEnv C s r)
+       else Gen.C16.appendShape.other.eval (appendEnv C s r)) = true := by
+  rw [append_conditions_agree]; exact mustFlush_is_refAppend C s r
+
+/-- `sendAndClear` hands nothing over exactly when the source's guard (`buffer.Len() == 0`) holds -/
+theorem sendAndClear_guard_in_source (v : Variant) (Z : Zip) (C : Codec ρ) (s : State ρ) :
+    (sendAndClear v Z C s).2 = [] ↔
+      Gen.C16.sendAndClearGuard.eval { Env.zero with bufLen := s.bufLen } = true := by
+  rw [sendAndClear_guard_agrees]; exact sendAndClear_guard_is_ref v Z C s
+
+/-- a pack is compressed exactly when none of `doZip`'s early-return guards (status already set,
+    `len(p.Records) < zipMin`) fires -/
+theorem doZip_decision_in_source (v : Variant) (Z : Zip) (st : Settings) (src : Src) (alias : Ref) (recs : List ρ)
+    (count : Nat) (bytes : Bytes) :
+    (mkPack v Z st src alias recs count bytes).zipped =
+      !(Gen.C16.doZipGuards.any (fun c => c.eval { Env.zero with zipMin := st.zipMin, recordsLen := bytes.length })) := by
+  rw [doZip_guards_agree]; exact mkPack_is_refDoZip v Z st src alias recs count bytes
+
+/-- `SendDirect` hands a pack over inside its loop exactly when the source's loop condition holds -/
+theorem sendDirect_decision_in_source (v : Variant) (Z : Zip) (C : Codec ρ) (st : Settings) (k : Nat) (d : DLoop ρ) (r : ρ) :
+    ((directStep v Z C st k d r).out.length = d.out.length + 1) ↔
+      Gen.C16.directLoopCond.eval { Env.zero with bufLen := ((d.len + (C.enc r).length : Nat) : Int), maxBuf := st.maxBuf } = true := by
+  rw [sendDirect_conditions_agree.1]; exact directStep_is_refDirectLoop v Z C st k d r
+
+end
+
 /-- D69 repaired: ApplyConfig replaces the settings under `settingsMutex`, and every other reader
     (the background loop, Append, doZip, SendDirect) goes through a getter that takes the read lock —
     no unsynchronised access to the four settings is left (the race detector run of the harness is the
